@@ -277,13 +277,47 @@ class HistoryRunner:
         self.state = {}
         self.nxt = 0
         self.unsupported = None
-        self.flags = {"locked_mutation": 0, "member_unlock": 0, "gc_unlock": 0, "shared": 0}
+        self.flags = {"locked_mutation": 0, "member_unlock": 0, "gc_unlock": 0, "shared": 0, "collected_as_expected": 0}
+        self.pinned = []         # objects the harness's own frames still reference (the object of a running with-statement)
+        self.model_off = False   # after the first model/implementation mismatch the history goes on with the oracles alone (SEARCH)
+        self.fake = 100000
 
     def count(self, k, n=1):
         self.stats[k] = self.stats.get(k, 0) + n
 
     # -- model step + comparison
     def model_step(self, opsx, real_outcome, new_obj=None):
+        """model comparison; after the first mismatch the history continues with the oracles only (a concrete failing input is
+        what the decision procedure is looking for), new objects getting identities of the harness's own"""
+        if not self.model_off:
+            ok = self._model_step(opsx, real_outcome, new_obj)
+            if ok or self.mismatch is None:
+                return ok
+            self.model_off = True
+        W = self.W
+        gc.collect()
+        died = sorted(m for m, r in W.wr.items() if r() is None and m not in W.dead)
+        W.dead.update(died)
+        if opsx is None:
+            self.gc_oracle(died)
+        if new_obj is not None and W.mid_of(new_obj) is None:
+            self.fake += 1
+            W.register(new_obj, self.fake)
+        return True
+
+    def gc_oracle(self, died):
+        # O6 gc_parent: lock parents are held weakly -- whatever the harness cannot reach any more has been collected
+        W = self.W
+        reach = {}
+        for o in list(W.handles.values()) + self.pinned:
+            W.reachable(o, reach)
+        kept = sorted(m for m, r in W.wr.items() if r() is not None and id(r()) not in reach)
+        if kept:
+            self.oracle.append(("gc_parent:unreachable-object-kept-alive", {"nodes": kept},
+                                {"call": "gc.collect", "effect": "kept-alive", "stream": "history", "pattern": None}))
+        self.flags["collected_as_expected"] += len(died)
+
+    def _model_step(self, opsx, real_outcome, new_obj=None):
         """appends the call (and, when objects were collected as a consequence, a gc op) to the model history and compares"""
         W = self.W
         if opsx is not None:
@@ -294,6 +328,8 @@ class HistoryRunner:
             W.dead.update(died)
             W.ops.append(sx([Sym("gc"), died]))
             self.count("gc:died", len(died))
+        if opsx is None:
+            self.gc_oracle(died)
         if opsx is None and not died:
             return True
         st, res = self.sess.trace(W.ops)
@@ -515,6 +551,10 @@ class HistoryRunner:
                 o = W.handles[n]
                 c = o.get(desc["k"]) if W.kind(o) == "td" else o.tensordicts[desc["i"]]
                 cm = W.mid_of(c)
+                if cm is None and self.model_off and W.is_node(c):
+                    self.fake += 1
+                    cm = self.fake
+                    W.register(c, cm)
                 if cm is not None:
                     W.handles[cm] = c
                 return True
@@ -754,6 +794,7 @@ class HistoryRunner:
         post = bool(h.is_locked)
         ok, exit_exc = True, None
         before_exit = None
+        self.pinned.append(h)
         try:
             with cm:
                 for _ in range(body_len):
@@ -768,6 +809,7 @@ class HistoryRunner:
         except Exception as e:  # noqa: BLE001 -- raised by the inverse call inside __exit__ (body calls are caught one by one)
             exit_exc = exc_enum(e)
         cm = None
+        self.pinned.pop()
         if not ok:
             return False
         if not escape and post != pre:
